@@ -43,10 +43,10 @@ def check(ctx):
                 good = any(R.call_matches(ev, a) for a in allowed)
                 ctx.check(good, inst, "CALLERS", scan.path, "recovery writes the device only through replay / journalled retirement",
                           b.where(nid), {"callee": ev.get("resolved") or ev.get("callee")})
-        rt = ctx.sites(scan, R.call("DiskIO::retire_extents"), inst, exact=1)
-        if rt:
-            nm = origin_names(scan, R.arg_expr(scan, scan.nodes[rt[0]], 1))
-            ctx.check("retired_extents" in nm, inst, "PROVENANCE", scan.path, "the journalled retirement is fed from retired_extents", scan.where(rt[0]), {"names": sorted(nm)})
+        rt = sorted(ctx.sites(scan, R.call("DiskIO::retire_extents"), inst, exact=2))
+        for x, want in zip(rt, ("retired_extents", "expired_extents")):
+            nm = origin_names(scan, R.arg_expr(scan, scan.nodes[x], 1))
+            ctx.check(want in nm, inst, "PROVENANCE", scan.path, "the journalled retirements are fed from retired_extents (stale duplicates) and expired_extents (expired winners), in that order", scan.where(x), {"names": sorted(nm)})
         un = R.call("DiskIO::retire_extents_unjournaled")(scan)
         ctx.check(not un, inst, "FORBID", scan.path, "recovery never calls the un-journalled marker writer directly", None)
     ew = ctx.fn("FeoxStore::remove_expired_recovery_winners", inst)
@@ -56,6 +56,7 @@ def check(ctx):
     check_winner(ctx, "C04.winner")
     check_repairs(ctx, "C04.repairs")
     check_position(ctx)
+    check_retire_order(ctx)
 
 
 def check_position(ctx, inst="C04.position"):
@@ -129,6 +130,52 @@ def check_position(ctx, inst="C04.position"):
         ctx.check(v == 2, inst, "PIN", "-", "two journal slots", None)
 
 
+def check_retire_order(ctx):
+    """restartability of the post-scan retirement. Recovery queues two kinds of extents: stale duplicates found during the scan
+    (their newer generation stays on the device) and, afterwards, the extents of *expired winners*. Retiring an expired
+    winner before the older generation it beat resurrects the older value if recovery is interrupted in between, so either
+    (A) DiskIO::retire_extents is one journal transaction for whatever it is given (no second intent after a clear), or
+    (B) recovery retires everything queued before remove_expired_recovery_winners in a call of its own, and only after that
+    call returned Ok the expired winners."""
+    inst = "C04.retire-order"
+    scan = ctx.fn("FeoxStore::scan_and_rebuild_indexes", inst)
+    rx = ctx.fn("DiskIO::retire_extents", inst)
+    if scan is None or rx is None:
+        return
+    wj = R.call("DiskIO::write_allocation_journal")(rx)
+    cj = R.call("DiskIO::clear_allocation_journal")(rx)
+    single_tx = True
+    for c in cj:
+        r, _ = A.reach(rx, A.succs(rx, c))
+        if any(w in r for w in wj):
+            single_tx = False
+    rt = sorted(R.call("DiskIO::retire_extents")(scan))
+    ew = ctx.sites(scan, R.call("FeoxStore::remove_expired_recovery_winners"), inst, exact=1)
+    ordered = False
+    detail = {"retire_extents_calls_in_recovery": len(rt), "retire_extents_is_one_transaction": single_tx}
+    if len(rt) == 2 and ew:
+        from rules import roles
+        first, second = rt
+        l1 = roles.recv_local(scan, scan.nodes[first], 1)
+        l2 = roles.recv_local(scan, scan.nodes[second], 1)
+        lw = roles.recv_local(scan, scan.nodes[ew[0]], 3)
+        detail.update({"first_vector": scan.local_name(l1) if l1 is not None else None, "second_vector": scan.local_name(l2) if l2 is not None else None,
+                       "expired_winners_go_to": scan.local_name(lw) if lw is not None else None})
+        # the expired winners are collected in the vector of the *second* retirement, which is not the first one's
+        ordered = l1 is not None and l2 is not None and l1 != l2 and lw == l2
+        if ordered:
+            R.dom(ctx, inst, scan, [first], [second], "expired winners are retired only after the stale duplicates were", a_desc="retire_extents(&retired_extents)")
+            R.guard(ctx, inst, scan, [second], R.guard_edges_for_call(scan, [first], "Ok"), "and only on the Ok edge of that first retirement")
+            # nothing the scan queues ends up in the second vector
+            pushes2 = [n.id for n in scan.calls() if R.call_matches(n.ev, "Vec::push") and roles.recv_local(scan, n, 0) == l2]
+            ctx.check(not pushes2, inst, "PROVENANCE", scan.path, "the scan queues stale duplicates only into the vector of the first retirement", None)
+    where = scan.where(rt[0]) if rt else None
+    ctx.check(single_tx or ordered, inst, "ORDER", scan.path,
+              "an expired newest generation is never retired in an earlier journal transaction than the older generation it beat "
+              "(retire_extents splits its argument into independent per-chunk transactions in sector order, and recovery hands it "
+              "stale duplicates and expired winners together)", where, detail)
+
+
 def check_repairs(ctx, inst):
     """what recovery may queue for retirement: only extents whose deadness was established in this scan"""
     scan = ctx.fn("FeoxStore::scan_and_rebuild_indexes", inst)
@@ -159,7 +206,7 @@ def check_repairs(ctx, inst):
     for r in rt:
         e = R.arg_expr(scan, scan.nodes[r], 1)
         nm = origin_names(scan, e) | names_of(scan, e)
-        ctx.check("retired_extents" in nm, inst, "PROVENANCE", scan.path, "retire_extents receives retired_extents", scan.where(r))
+        ctx.check("retired_extents" in nm or "expired_extents" in nm, inst, "PROVENANCE", scan.path, "retire_extents receives retired_extents / expired_extents", scan.where(r))
 
 
 def check_winner(ctx, inst):
